@@ -54,7 +54,7 @@ def _returns(fn):
 
 def inlinable(fi):
     fn = fi.node
-    if fi.outer is not None or fi.nested:
+    if fi.nested or (fi.outer is not None and fi.outer.outer is not None):
         return None
     if any(d not in ("staticmethod",) for d in fi.decorators):
         return None
@@ -151,6 +151,60 @@ def _expand(fi, call, mode, caller_names=frozenset()):
     return stmts, ret
 
 
+def _contains_return(st):
+    for n in ast.walk(st):
+        if isinstance(n, ast.Return):
+            return True
+    return False
+
+
+def _tailify(stmts, target, lineno):
+    """statements with every `return e` replaced by `target = e` (returns in tail position, or early returns under
+    an if: the rest of the block moves into the other branch); None when a return sits in a loop / try / with"""
+
+    def assign(v):
+        val = v if v is not None else ast.Constant(value=None)
+        return ast.Assign(targets=[_store(target)], value=val, lineno=lineno, col_offset=0)
+
+    def rec(block):
+        out = []
+        for i, st in enumerate(block):
+            if isinstance(st, ast.Return):
+                out.append(assign(st.value))
+                return out
+            if isinstance(st, ast.Raise):
+                out.append(st)
+                return out
+            if isinstance(st, ast.If) and _contains_return(st):
+                rest = block[i + 1 :]
+                b = rec(list(st.body) + [_clone(x) for x in rest])
+                o = rec(list(st.orelse) + [_clone(x) for x in rest])
+                if b is None or o is None:
+                    return None
+                out.append(ast.If(test=st.test, body=b, orelse=o, lineno=st.lineno, col_offset=0))
+                return out
+            if _contains_return(st):
+                return None
+            out.append(st)
+        out.append(assign(None))
+        return out
+
+    return rec(stmts)
+
+
+def _store(text):
+    n = ast.parse(text, mode="eval").body
+    for x in ast.walk(n):
+        if hasattr(x, "ctx"):
+            x.ctx = ast.Load()
+    n.ctx = ast.Store()
+    return n
+
+
+def _clone(st):
+    return ast.parse(ast.unparse(st)).body[0]
+
+
 def _expression_helper(fi):
     """helper whose body is `return <expr>` (after a docstring): usable inside expressions"""
     if inlinable(fi) is None:
@@ -158,6 +212,20 @@ def _expression_helper(fi):
     body = [s for s in fi.node.body if not (isinstance(s, ast.Expr) and isinstance(s.value, ast.Constant))]
     if len(body) == 1 and isinstance(body[0], ast.Return) and body[0].value is not None and not _has(body[0].value, (ast.Lambda, ast.NamedExpr)):
         return body[0].value
+    # x = <expr>; y = <expr using x>; return <expr using x, y>  ->  one expression (locals assigned once, never a parameter)
+    if len(body) >= 2 and isinstance(body[-1], ast.Return) and body[-1].value is not None and len(body) <= 6:
+        params = {a.arg for a in fi.node.args.args}
+        env = {}
+        for st in body[:-1]:
+            if not (isinstance(st, ast.Assign) and len(st.targets) == 1 and isinstance(st.targets[0], ast.Name)):
+                return None
+            t = st.targets[0].id
+            if t in params or t in env or _has(st.value, (ast.Lambda, ast.NamedExpr, ast.Yield, ast.Await)):
+                return None
+            env[t] = _Subst(dict(env), {}).visit(ast.parse(ast.unparse(st.value), mode="eval").body)
+        if _has(body[-1].value, (ast.Lambda, ast.NamedExpr)):
+            return None
+        return _Subst(env, {}).visit(ast.parse(ast.unparse(body[-1].value), mode="eval").body)
     return None
 
 
@@ -221,7 +289,7 @@ def inline_new_helpers(prog):
         def target(call, caller):
             f = call.func
             if isinstance(f, ast.Name):
-                fi = mi.funcs.get(f.id)
+                fi = caller.nested.get(f.id) or mi.funcs.get(f.id)
             elif isinstance(f, ast.Attribute) and isinstance(f.value, ast.Name) and caller.cls is not None and f.value.id in ("self", "cls", caller.cls.name):
                 fi = caller.cls.methods.get(f.attr)
             elif isinstance(f, ast.Attribute) and isinstance(f.value, ast.Name) and f.value.id in mi.classes:
@@ -243,6 +311,31 @@ def inline_new_helpers(prog):
                     for h in st.handlers:
                         h.body = rewrite(h.body, caller, depth)
                 call, kind = None, None
+                # x = [h(e) for e in it if c] / return [...]  with h an unknown multi-statement helper  ->  an append loop
+                comp = st.value if isinstance(st, (ast.Assign, ast.Return)) and isinstance(st.value, ast.ListComp) else None
+                if comp is not None and len(comp.generators) == 1 and not comp.generators[0].is_async and isinstance(comp.elt, ast.Call) and depth < 3 and (isinstance(st, ast.Return) or (len(st.targets) == 1 and isinstance(st.targets[0], ast.Name))):
+                    t = target(comp.elt, caller)
+                    if t is not None and t[1] == "straight":
+                        cn = {n.id for n in ast.walk(caller.node) if isinstance(n, ast.Name)} | {a.arg for a in caller.node.args.args}
+                        ex = _expand(t[0], comp.elt, "straight", cn)
+                        if ex is not None and ex[1] is not None:
+                            body, ret = ex
+                            gen = comp.generators[0]
+                            acc = st.targets[0].id if isinstance(st, ast.Assign) else "result" + SUFFIX
+                            final = []
+                            if any(isinstance(n, ast.Name) and n.id == acc for n in ast.walk(gen.iter)):
+                                final = [ast.Assign(targets=[ast.Name(id=acc, ctx=ast.Store())], value=ast.Name(id="result" + SUFFIX, ctx=ast.Load()), lineno=st.lineno, col_offset=0)]
+                                acc = "result" + SUFFIX
+                            inner = rewrite(body, caller, depth + 1) + [ast.Expr(value=ast.Call(func=ast.Attribute(value=ast.Name(id=acc, ctx=ast.Load()), attr="append", ctx=ast.Load()), args=[ret], keywords=[]), lineno=st.lineno, col_offset=0)]
+                            for cond in reversed(gen.ifs):
+                                inner = [ast.If(test=cond, body=inner, orelse=[], lineno=st.lineno, col_offset=0)]
+                            out.append(ast.Assign(targets=[ast.Name(id=acc, ctx=ast.Store())], value=ast.List(elts=[], ctx=ast.Load()), lineno=st.lineno, col_offset=0))
+                            out.append(ast.For(target=gen.target, iter=gen.iter, body=inner, orelse=[], lineno=st.lineno, col_offset=0))
+                            out += final
+                            if isinstance(st, ast.Return):
+                                out.append(ast.Return(value=ast.Name(id=acc, ctx=ast.Load()), lineno=st.lineno, col_offset=0))
+                            done.append((caller.qname, t[0].qname))
+                            continue
                 if isinstance(st, ast.Expr) and isinstance(st.value, ast.Call):
                     call, kind = st.value, "expr"
                 elif isinstance(st, ast.Assign) and isinstance(st.value, ast.Call):
@@ -254,6 +347,17 @@ def inline_new_helpers(prog):
                     out.append(st)
                     continue
                 fi, mode = t
+                if kind == "assign" and mode != "straight" and len(st.targets) == 1 and isinstance(st.targets[0], (ast.Name, ast.Attribute, ast.Subscript)):
+                    # helper with several returns, all in tail position: each `return e` becomes `target = e`
+                    cn = {n.id for n in ast.walk(caller.node) if isinstance(n, ast.Name)} | {a.arg for a in caller.node.args.args}
+                    ex = _expand(fi, call, "tail", cn)
+                    tl = _tailify(ex[0], ast.unparse(st.targets[0]), st.lineno) if ex is not None else None
+                    if tl is not None:
+                        for x in tl:
+                            ast.fix_missing_locations(x)
+                        out += rewrite(tl, caller, depth + 1)
+                        done.append((caller.qname, fi.qname))
+                        continue
                 if kind in ("expr", "assign") and mode != "straight":
                     out.append(st)
                     continue
@@ -267,9 +371,32 @@ def inline_new_helpers(prog):
                 if kind == "expr":
                     out += body
                 elif kind == "assign":
-                    out += body
-                    st.value = ret if ret is not None else ast.Constant(value=None)
-                    out.append(st)
+                    tgt = st.targets[0] if len(st.targets) == 1 else None
+                    pairs = None
+                    if isinstance(tgt, ast.Name) and isinstance(ret, ast.Name):
+                        pairs = [(tgt, ret)]
+                    elif isinstance(tgt, ast.Tuple) and isinstance(ret, ast.Tuple) and len(tgt.elts) == len(ret.elts) and all(isinstance(t, ast.Name) for t in tgt.elts):
+                        tnames = {t.id for t in tgt.elts}
+                        if not any(isinstance(n, ast.Name) and n.id in tnames for r in ret.elts for n in ast.walk(r)):
+                            pairs = list(zip(tgt.elts, ret.elts))
+                    if pairs is None:
+                        out += body
+                        st.value = ret if ret is not None else ast.Constant(value=None)
+                        out.append(st)
+                    else:
+                        # a, b = (x, y) -> a = x; b = y ; and a helper local that only feeds its target takes the target's name
+                        copies = []
+                        for t, r in pairs:
+                            if isinstance(r, ast.Name) and r.id.endswith(SUFFIX) and r.id[: -len(SUFFIX)] == t.id:
+                                uses = [n for b_ in body for n in ast.walk(b_) if isinstance(n, ast.Name) and n.id == t.id]
+                                if not uses:
+                                    for b_ in body:
+                                        for n in ast.walk(b_):
+                                            if isinstance(n, ast.Name) and n.id == r.id:
+                                                n.id = t.id
+                                    continue
+                            copies.append(ast.Assign(targets=[ast.Name(id=t.id, ctx=ast.Store())], value=r, lineno=st.lineno, col_offset=0))
+                        out += body + copies
                 else:
                     out += body
                     if mode == "straight" or ret is not None:
@@ -280,5 +407,19 @@ def inline_new_helpers(prog):
 
         for caller in [f for f in prog.funcs.values() if f.mod is mi]:
             caller.node.body = rewrite(caller.node.body, caller)
+            # closures whose every use was expanded are dropped
+            for nm, nf in list(caller.nested.items()):
+                if nf.qname in cands and any(h == nf.qname for _, h in done):
+                    used = any(isinstance(n, ast.Name) and n.id == nm for st in caller.node.body if st is not nf.node for n in ast.walk(st) if not (isinstance(st, (ast.FunctionDef, ast.AsyncFunctionDef)) and st.name == nm))
+                    if not used:
+                        caller.node.body = [st for st in caller.node.body if not (isinstance(st, (ast.FunctionDef, ast.AsyncFunctionDef)) and st.name == nm)]
             ast.fix_missing_locations(caller.node)
+    if done:
+        from .normalize import split_tuple_assigns
+
+        touched = {c for c, _ in done}
+        for f in prog.funcs.values():
+            if f.qname in touched:
+                f.node.body = split_tuple_assigns(f.node.body)
+                ast.fix_missing_locations(f.node)
     return done
